@@ -768,6 +768,125 @@ def char_rendering(run, m, F, E):
     return n
 
 
+def flag_table(run, m, F, E):
+    """R11.6: what each character of a field text does to the public ST::format_spec (the contract between the parser and every
+    renderer, built-in or user-defined): one arbitrary iteration of parse_format is interpreted over an abstract text; on each
+    path the unit read (its case) is matched with the fields stored in that iteration."""
+    from . import c10
+    f = None
+    for name in F.lib:
+        if m.func(name).dem == 'ST::format_writer::parse_format()':
+            f = m.func(name)
+    if f is None:
+        run.ob('R11.6', 'parse_format', None, 'ST::format_writer::parse_format() not found: not analysed')
+        return 0
+    lay = m.structs.get('struct.ST::format_spec')
+    names = ['minimum_length', 'precision', 'arg_index', 'alignment', 'digit_class', 'float_class', 'pad', 'always_signed', 'class_prefix', 'numeric_pad']
+    if not lay or len(lay['fields']) != len(names):
+        run.ob('R11.6', short(f.dem), None, 'layout of ST::format_spec not recognised')
+        return 0
+    off2name = dict((fld[1], nm) for nm, fld in zip(names, lay['fields']))
+    AL = m.enums.get('ST::alignment_t') or {}
+    DC = m.enums.get('ST::digit_class_t') or {}
+    FC = m.enums.get('ST::float_class_t') or {}
+    ORACLE = {
+        ord('<'): {'alignment': AL.get('align_left')}, ord('>'): {'alignment': AL.get('align_right')},
+        ord('0'): {'pad': 0x30, 'numeric_pad': 1}, ord('#'): {'class_prefix': 1}, ord('+'): {'always_signed': 1},
+        ord('x'): {'digit_class': DC.get('digit_hex')}, ord('X'): {'digit_class': DC.get('digit_hex_upper')},
+        ord('d'): {'digit_class': DC.get('digit_dec')}, ord('o'): {'digit_class': DC.get('digit_oct')},
+        ord('b'): {'digit_class': DC.get('digit_bin')}, ord('c'): {'digit_class': DC.get('digit_char')},
+        ord('f'): {'float_class': FC.get('float_fixed')}, ord('e'): {'float_class': FC.get('float_exp')},
+        ord('E'): {'float_class': FC.get('float_exp_upper')},
+    }
+
+    class PH(c10.ParserHooks):
+        def on_store(self2, I, st, inst, p, v, nbytes):
+            if p.obj == 'SPECOUT' and not p.off.t:
+                st.ev('spec-store', inst, p.off.c, v)
+    I = Interp(m, F, E, PH(m))
+    st = c10.text_state()
+    so = Obj('ext', Lin.const(lay['size']))
+    so.lazy = True
+    st.objs['SPECOUT'] = so
+    try:
+        outs = I.run(I.start(f, [PtrV('SPECOUT'), PtrV('W')], st))
+    except Budget as e:
+        run.ob('R11.6', short(f.dem), None, 'not interpreted: %s' % e, loc=fn_loc(f))
+        return 0
+    from ..terms import base_atoms
+    seen = {}
+    n = 0
+    und_all = []
+    for o in outs:
+        if o.kind != 'backedge' or not o.info or o.info[0] != f.name:
+            continue
+        s2 = o.st
+        wi = max([k for k, e in enumerate(s2.events) if e[0] == 'widen' and e[1] == f.name] or [-1])
+        evs = s2.events[wi + 1:]
+        reads = [e for e in evs if e[0] == 'text-read']
+        stores = [e for e in evs if e[0] == 'spec-store']
+        if not reads:
+            continue
+        # the unit that selected this path: the first unit read in the iteration
+        ua = [a for a in s2.rng if isinstance(a, tuple) and a[0] == 'load' and a[1] == 'FMT' and s2.is_eq0(a[2] - reads[0][2]) is True]
+        if len(ua) != 1:
+            und_all.append('the unit that selects a flag is not identified on a path')
+            continue
+        lo, hi = s2.arange(ua[0])
+        got = {}
+        for e in stores:
+            nm = off2name.get(e[2])
+            if nm is None:
+                continue
+            v = e[3]
+            got[nm] = (v.lin.c if isinstance(v, IntV) and not v.lin.t else v)
+        if lo == hi and lo in ORACLE:
+            want = ORACLE[lo]
+            n += 1
+            seen[lo] = True
+            probs = []
+            for nm, wv in want.items():
+                gv = got.get(nm, 'untouched')
+                if gv == 'untouched' or not isinstance(gv, int):
+                    probs.append("'%s' does not set %s (expected %s)" % (chr(lo), nm, wv))
+                elif (gv & 0xFF if nm in ('pad', 'always_signed', 'class_prefix', 'numeric_pad') else gv) != wv:
+                    probs.append("'%s' sets %s = %s, expected %s" % (chr(lo), nm, gv, wv))
+            extra = [nm for nm in got if nm not in want]
+            if extra:
+                probs.append("'%s' also changes %s" % (chr(lo), ', '.join(extra)))
+            run.ob('R11.6', short(f.dem), not probs, probs[0] if probs else "'%s' -> %s" % (chr(lo), ', '.join('%s=%s' % kv for kv in sorted(want.items()))),
+                   disc="flag '%s'" % chr(lo), loc=fn_loc(f))
+        elif lo == hi and lo == ord('_'):
+            n += 1
+            seen[lo] = True
+            probs = []
+            pv = got.get('pad')
+            if not isinstance(pv, IntV) or not [a for a in base_atoms(pv.lin) if isinstance(a, tuple) and a[0] == 'load' and a[1] == 'FMT' and s2.is_eq0(a[2] - reads[0][2] - 1) is True]:
+                probs.append("'_' does not take the pad character from the unit that follows it")
+            if got.get('numeric_pad') not in (0,):
+                probs.append("'_' does not clear numeric_pad")
+            run.ob('R11.6', short(f.dem), not probs, probs[0] if probs else "'_c' -> pad=c, numeric_pad=false", disc="flag '_'", loc=fn_loc(f))
+        elif lo >= ord('1') and hi <= ord('9') or (lo == hi and lo in (ord('.'), ord('&'))):
+            key = 'minimum_length' if lo >= ord('1') and hi <= ord('9') else ('precision' if lo == ord('.') else 'arg_index')
+            n += 1
+            seen[key] = True
+            sv = got.get(key)
+            ok = isinstance(sv, IntV) and any(isinstance(a, str) and a.startswith('strto') or (isinstance(a, tuple) and 'strto' in str(a[0])) for a in base_atoms(sv.lin)) or \
+                (isinstance(sv, IntV) and [e for e in evs if e[0] == 'strto'])
+            extra = [nm for nm in got if nm != key]
+            probs = []
+            if sv is None:
+                probs.append('%s is not stored for its introducer' % key)
+            elif extra:
+                probs.append('the %s introducer also changes %s' % (key, ', '.join(extra)))
+            run.ob('R11.6', short(f.dem), False if probs else (True if ok else None), probs[0] if probs else ('%s = the decimal number that follows' % key if ok else
+                   '%s is stored, but not recognisably as the number parsed from the text' % key), disc=key, loc=fn_loc(f))
+    missing = [chr(c) for c in ORACLE if c not in seen] + ([] if ord('_') in seen else ['_'])
+    if missing or und_all:
+        run.ob('R11.6', short(f.dem), None, (und_all[0] if und_all else 'no iteration path found for the flag character(s) %s' % ' '.join(missing)), disc='coverage', loc=fn_loc(f))
+    return n
+
+
 def check(run):
     m = run.module()
     F = run.facts()
@@ -782,5 +901,6 @@ def check(run):
     run.floor('numeric printers', numeric_fronts(run, m, F, E), 8)
     run.floor('apply_format instantiations', selection(run, m, F, E), 1)
     run.counts['character rendering paths'] = char_rendering(run, m, F, E)
+    run.counts['flag characters decoded'] = flag_table(run, m, F, E)
     for o in run.obs[:6]:
         run.sample(dict(rule=o['rule'], subject=o['subject'], verdict=o['verdict'], detail=o['detail'][:200]))
